@@ -168,7 +168,7 @@ fn boundary_ints(min: i128, max: i128) -> Vec<i128> {
 
 pub fn run(run: Run) -> ! {
     let thorough = run.is_thorough();
-    let xs = if thorough { x_grid(4096, 16) } else { x_grid(64, 16) };
+    let xs = if thorough { x_grid(4096, 16) } else { x_grid(256, 16) };
     let mut acc = Acc::default();
     // 8-bit: all pairs
     let u8s: Vec<u8> = (0..=255).collect();
@@ -201,7 +201,7 @@ pub fn run(run: Run) -> ! {
     merge(&mut acc, all_pairs(&f32s, &xs, 10 << 56));
     merge(&mut acc, all_pairs(&f64s, &xs, 11 << 56));
     // extreme pairs over ALL f32 x in [0,1] (thorough) / every 4096th (quick)
-    let stride: u32 = if thorough { 1 } else { 4096 };
+    let stride: u32 = if thorough { 1 } else { 128 };
     let one = 1.0f32.to_bits();
     let blocks: Vec<(u32, u32)> = {
         let mut v = vec![];
@@ -250,7 +250,7 @@ pub fn run(run: Run) -> ! {
     cov.insert("traces_validated_against_impl".into(), json!(acc.evals));
     cov.insert("evaluations".into(), json!(acc.evals));
     cov.insert("distinct_nontrivial".into(), json!(acc.nontrivial_pairs));
-    cov.insert("rule".into(), json!(format!("u8,i8: ALL 65536 (a,b) pairs; u16,i16: boundary values squared; i32,u32,i64,u64,usize: all f32-representable boundary values (0, +-2^j, largest f32 below 2^j, MIN, largest representable below MAX) squared; f32: 28 values squared (signed zeros, subnormals, non-dyadics, 1e20, MAX/4); f64: the same values; x grid: j/{} plus 16 f32 neighbours of 0, 1/2, 1 and 0.1,0.2,0.3,0.7,0.9,1/3; extreme pairs additionally over {} f32 x in [0,1]; glam Vec2/3/3A/4, DVec*, IVec*, UVec*, I64Vec*, U64Vec* component-wise ({} vector evaluations). states = (type,a,b) pairs, transitions = lerp calls; non-trivial = pairs with a != b", if thorough { 4096 } else { 64 }, if thorough { "ALL 1 065 353 217" } else { "every 4096th of the" }, glam_checks)));
+    cov.insert("rule".into(), json!(format!("u8,i8: ALL 65536 (a,b) pairs; u16,i16: boundary values squared; i32,u32,i64,u64,usize: all f32-representable boundary values (0, +-2^j, largest f32 below 2^j, MIN, largest representable below MAX) squared; f32: 28 values squared (signed zeros, subnormals, non-dyadics, 1e20, MAX/4); f64: the same values; x grid: j/{} plus 16 f32 neighbours of 0, 1/2, 1 and 0.1,0.2,0.3,0.7,0.9,1/3; extreme pairs additionally over {} f32 x in [0,1]; glam Vec2/3/3A/4, DVec*, IVec*, UVec*, I64Vec*, U64Vec* component-wise ({} vector evaluations). states = (type,a,b) pairs, transitions = lerp calls; non-trivial = pairs with a != b", if thorough { 4096 } else { 256 }, if thorough { "ALL 1 065 353 217" } else { "every 128th of the" }, glam_checks)));
     cov.insert("exhaustive".into(), json!(true));
     cov.insert("oracles".into(), json!("x=0 => a and x=1 => b exactly; a=b => a and betweenness exactly when 2 ulp32(|a|) < 1/2 (integers below 2^21), within 2 ulp32 otherwise; monotone in x up to 2 ulp32; |r - (a + x(b-a))| <= 1/2 + 3 ulp32(max|a|,|b|) for integers, <= 3 ulp32 for floats; no panic; finite"));
     cov.insert("samples".into(), json!(acc.samples));
